@@ -1225,6 +1225,61 @@ def compare(res, exp, cfg_sym_zero=None):
     return None
 
 
+def views_agree(x):
+    """block access (key in x, x[key]), to_numpy (both sector orders), to_nonsymmetric and get_legs describe one and the same array:
+    the dense array is re-assembled here from the blocks and the legs alone"""
+    if not hasattr(x, 'struct') or x.isdiag or x.ndim != x.ndim_n or x.ndim == 0:
+        return None
+    nsym = x.config.sym.NSYM
+    lg = x.get_legs()
+    lg = [lg] if isinstance(lg, yastn.Leg) else list(lg)
+    nat = [tuple(tuple(t[i * nsym:(i + 1) * nsym]) for i in range(x.ndim_n)) for t in x.struct.t]
+    keys = [tuple(k[p] for p in x.trans) for k in nat]          # leg i of the tensor is stored leg trans[i]
+    for reverse in (False, True):
+        offs = []
+        for l in lg:
+            o, d = 0, {}
+            for t, D in (list(zip(l.t, l.D))[::-1] if reverse else zip(l.t, l.D)):
+                d[t] = (o, o + D); o += D
+            offs.append((d, o))
+        ref = np.zeros([o for _, o in offs], dtype=x.yastn_dtype)
+        for k in keys:
+            flat = tuple(c for t in k for c in t)
+            if nsym and flat not in x:
+                return 'block %r is listed but "in" denies it' % (k,)
+            try:
+                blk = x[flat] if nsym else x[()]
+            except yastn.YastnError as e:
+                return 'block %r is listed but item access raises: %s' % (k, e)
+            try:
+                ref[tuple(slice(*offs[i][0][t]) for i, t in enumerate(k))] = blk
+            except (KeyError, ValueError) as e:
+                return 'block %r does not fit the legs reported by get_legs (%s)' % (k, e)
+        try:
+            d = x.to_numpy(reverse=reverse)
+        except Exception as e:
+            return 'to_numpy(reverse=%s) raised %s: %s' % (reverse, type(e).__name__, e)
+        if d.shape != ref.shape or not np.array_equal(d, ref):
+            return 'to_numpy(reverse=%s) differs from the array assembled from the blocks and get_legs' % reverse
+    try:
+        ns = x.to_nonsymmetric()
+        dn = ns.to_numpy()
+        ns.get_legs()
+        okc = ns.is_consistent()
+    except Exception as e:
+        return 'to_nonsymmetric / its to_numpy / get_legs raised %s: %s' % (type(e).__name__, e)
+    if dn.shape != x.to_numpy().shape or not np.array_equal(dn, x.to_numpy()):
+        return 'to_nonsymmetric().to_numpy() differs from to_numpy()'
+    # a key that is not a block
+    if nsym and keys and x.ndim >= 2:
+        k = keys[0]
+        other = tuple(c for t in (k[1:] + k[:1]) for c in t)
+        present = tuple(k[1:] + k[:1]) in keys
+        if (other in x) != present:
+            return '"in" answers %r for key %r, listed blocks say %r' % (other in x, other, present)
+    return None
+
+
 def run_case(kind, seed, opts=None):
     """returns (status, detail, scenario) with status in ok / mismatch / error / skip"""
     try:
@@ -1244,4 +1299,9 @@ def run_case(kind, seed, opts=None):
     msg = compare(res, exp)
     if msg:
         return 'mismatch', msg, sc
+    if (opts or {}).get('views', True):
+        for y in [res] + list(sc.get('operands', [])):
+            msg = views_agree(y)
+            if msg:
+                return 'mismatch', 'views: ' + msg, sc
     return 'ok', res, sc
